@@ -54,7 +54,10 @@ ALLOWED = {"EOFError", "ValueError", "UnicodeError", "UnicodeDecodeError", "Unic
 ROOTS = [("Message", "fromStr"), ("_EDNSMessage", "fromStr")]
 HARMLESS = {"BytesIO", "len", "range", "set", "int", "getattr", "setattr", "log.msg", "struct.calcsize", "isinstance", "bool", "list", "tuple", "bytes",
             "min", "max", "abs", "frozenset", "dict", "str", "repr", "divmod", "bytearray", "sorted", "reversed", "enumerate", "zip", "sum", "any", "all",
-            "hasattr", "id", "type", "callable", "iter", "memoryview", "round", "hash", "print", "log.err", "warnings.warn", "object", "super"}
+            "hasattr", "id", "type", "callable", "iter", "memoryview", "round", "hash", "print", "log.err", "warnings.warn", "object", "super",
+            # itertools constructors do not raise; whether iterating their result ends is rule termination/for-finite
+            "chain", "itertools.chain", "chain.from_iterable", "itertools.chain.from_iterable", "cycle", "itertools.cycle", "count", "itertools.count", "repeat",
+            "itertools.repeat", "islice", "itertools.islice", "zip_longest", "itertools.zip_longest", "map", "filter"}
 # bytes(n)/bytearray(n)/int(x)/round reject bad operands with ValueError (allowed); sum/min/max over message-derived *numbers* do not raise
 HARMLESS_METHODS = {"append", "add", "tell", "seek", "read", "get", "getvalue", "items", "values", "keys", "lower", "upper", "extend", "to_bytes", "from_bytes",
                     # str / bytes (index()/decode() raise ValueError subclasses only, which are allowed)
@@ -137,6 +140,29 @@ class Family:
                 out.add("<factory>" + ca.id)
         return out
 
+    def registry_lookups(self) -> Set[str]:
+        """Names of the methods that hand out a class from the record-type registry (their return value is read from `_recordTypes`)."""
+        if getattr(self, "_rl", None) is None:
+            self._rl = set()
+            for c in self.classes.values():
+                for name, m in methods(c).items():
+                    if any(isinstance(r, ast.Return) and r.value is not None and any(isinstance(x, ast.Attribute) and x.attr == "_recordTypes" for x in ast.walk(r.value)) for r in ast.walk(m)):
+                        self._rl.add(name)
+        return self._rl
+
+    def _holds_registry_class(self, f: ast.FunctionDef, name: str) -> bool:
+        """The local `name` is bound (only) to results of the registry lookup: calling it constructs a record of a registered class."""
+        vals = [st.value for st in statements(f) if isinstance(st, ast.Assign) and any(isinstance(t, ast.Name) and t.id == name for t in st.targets)]
+        if not vals or name in [a.arg for a in f.args.args]:
+            return False
+        for v in vals:
+            ok = isinstance(v, ast.Call) and isinstance(v.func, ast.Attribute) and v.func.attr in self.registry_lookups()
+            ok = ok or (isinstance(v, ast.Call) and isinstance(v.func, ast.Attribute) and v.func.attr == "get" and src(v.func.value).endswith("_recordTypes"))
+            ok = ok or (isinstance(v, ast.Subscript) and src(v.value).endswith("_recordTypes"))
+            if not ok:
+                return False
+        return True
+
     def local_classes(self, f: ast.FunctionDef, cname: str, name: str, _seen: Tuple[str, ...] = ()) -> Set[str]:
         out: Set[str] = set()
         if name in _seen:
@@ -155,6 +181,8 @@ class Family:
                             out.add("?")
                 elif isinstance(v, ast.Call) and isinstance(v.func, ast.Name) and v.func.id == "cls":
                     out.add(cname)
+                elif isinstance(v, ast.Call) and isinstance(v.func, ast.Name) and self._holds_registry_class(f, v.func.id):
+                    out.update(self.registry)        # an instance of whatever record class the type registry handed out
                 else:
                     out.add("?")
         # a loop variable over a literal tuple/list of objects:  for x in (self.a, self.b): x.decode(...)
@@ -174,6 +202,66 @@ class Family:
                     else:
                         out.add("?")
         return out
+
+    def param_tuple_classes(self, f: ast.FunctionDef, name: str) -> Optional[Tuple[Set[str], Set[str]]]:
+        """`name` is bound by `for ..., name, ... in P` where P is a parameter of the helper `f`: look at EVERY call site of the helper in the module and at
+        the table it passes for P (a tuple/list literal, directly or as a class-level / module-level constant).  -> (module classes found at name's
+        position in the rows, all module classes in the rows), or None when a site or a table cannot be resolved or a row holds something else there."""
+        params = [a.arg for a in f.args.args]
+        loops = []
+        for lp in ast.walk(f):
+            if isinstance(lp, (ast.For, ast.comprehension)) and isinstance(lp.iter, ast.Name) and lp.iter.id in params:
+                tgt = lp.target
+                names = [x.id if isinstance(x, ast.Name) else None for x in (tgt.elts if isinstance(tgt, ast.Tuple) else [tgt])]
+                if name in names:
+                    loops.append((lp.iter.id, names.index(name), isinstance(tgt, ast.Tuple)))
+        if not loops:
+            return None
+        at_pos: Set[str] = set()
+        every: Set[str] = set()
+        sites = [c for c in ast.walk(self.mod.tree) if isinstance(c, ast.Call) and ((isinstance(c.func, ast.Name) and c.func.id == f.name) or
+                                                                                  (isinstance(c.func, ast.Attribute) and c.func.attr == f.name and isinstance(c.func.value, ast.Name) and c.func.value.id in ("self", "cls")))]
+        if not sites:
+            return None
+        for pname, idx, is_tuple in loops:
+            pi = params.index(pname)
+            for c in sites:
+                off = 1 if isinstance(c.func, ast.Attribute) else 0
+                a = c.args[pi - off] if 0 <= pi - off < len(c.args) else next((k.value for k in c.keywords if k.arg == pname), None)
+                if a is None:
+                    return None
+                table = a
+                if isinstance(a, ast.Attribute) and isinstance(a.value, ast.Name):
+                    owner = None
+                    if a.value.id in self.classes:
+                        owner = self.classes[a.value.id]
+                    else:
+                        par = getattr(c, "_parent", None)
+                        while par is not None and not isinstance(par, ast.ClassDef):
+                            par = getattr(par, "_parent", None)
+                        owner = par
+                    r = mro_lookup(self.mod, owner, a.attr) if owner is not None else None
+                    table = r[1] if r is not None and isinstance(r[1], ast.expr) else None
+                elif isinstance(a, ast.Name):
+                    try:
+                        table = self.mod.module_assign(a.id)
+                    except Exception:
+                        table = None
+                if not isinstance(table, (ast.Tuple, ast.List)):
+                    return None
+                for row in table.elts:
+                    cells = row.elts if (is_tuple and isinstance(row, (ast.Tuple, ast.List))) else ([row] if not is_tuple else None)
+                    if cells is None or idx >= len(cells):
+                        return None
+                    for x in cells:
+                        if isinstance(x, ast.Name) and x.id in self.classes:
+                            every.add(x.id)
+                    cell = cells[idx]
+                    if isinstance(cell, ast.Name) and cell.id in self.classes:
+                        at_pos.add(cell.id)
+                    elif not isinstance(cell, ast.Constant):
+                        return None
+        return at_pos, every
 
     def struct_format(self, key, f, e, _depth: int = 0):
         """If `e` denotes a precompiled struct.Struct object: its format (str), or "computed" when the format is not a constant; else None.
@@ -265,6 +353,9 @@ class Family:
             assigned = [st.value for st in statements(f) if isinstance(st, ast.Assign) and any(isinstance(t, ast.Name) and t.id == fn.id for t in st.targets)]
             if assigned and all(isinstance(v, ast.Call) for v in assigned) and fn.id not in [a.arg for a in f.args.args]:
                 return "ctor"
+            pt = self.param_tuple_classes(f, fn.id)
+            if pt is not None and pt[0] and not c.args and not c.keywords:
+                return "ctor"        # a no-argument factory taken from a table every caller passes as a literal: each entry is a class of this module
             return None
         if name in HARMLESS:
             return "harmless"
@@ -291,6 +382,10 @@ class Family:
                     cands = {x for x in self.attr_classes(cname, recv.attr) if not x.startswith("<factory>")}
                 elif isinstance(recv, ast.Name):
                     cands = self.local_classes(f, cname, recv.id)
+                elif isinstance(recv, ast.Call) and call_name(recv) == "getattr" and len(recv.args) == 2 and isinstance(recv.args[1], ast.Name) \
+                        and self.param_tuple_classes(f, recv.args[1].id) is not None and self.param_tuple_classes(f, recv.args[1].id)[1]:
+                    # the attribute named by a row of a caller-supplied table: its value is an instance of one of the classes the tables name
+                    cands = {x for x in self.param_tuple_classes(f, recv.args[1].id)[1] if self.func(x, fn.attr) is not None}
                 elif self._getattr_names(f, recv) is not None:   # getattr(self, "a") / getattr(self, n) with n looping over literal names
                     for an in self._getattr_names(f, recv):
                         cs = {x for x in self.attr_classes(cname, an) if not x.startswith("<factory>")}
@@ -311,7 +406,9 @@ class Family:
         return None
 
     def build(self):
-        todo = list(ROOTS)
+        # members by role: the entry points, and every registered record class's decoder (they are reachable through the type registry whatever the
+        # dispatching code looks like); the rest is found through the call graph
+        todo = list(ROOTS) + [(r, "decode") for r in self.registry if r in self.classes and self.func(r, "decode") is not None]
         while todo:
             key = todo.pop()
             if key in self.funcs:
@@ -1096,18 +1193,33 @@ def check_length_supplied(ctx, fam: Family):
                           "exception) escapes")
     ctx.floor("escape/length-supplied", n, 20, "resolved decode call edges")
     # the length passed at the polymorphic site is the rdlength just decoded
-    pr = fam.funcs.get(("Message", "parseRecords")) or _fail("Message.parseRecords not in the decode family")
-    g = ctx.cfg(pr)
-    pay = g.find(lambda x: isinstance(x, ast.Call) and call_attr(x) == "decode" and src(x.func.value).endswith(".payload"))
-    hdr = g.find(lambda x: isinstance(x, ast.Call) and call_attr(x) == "decode" and not src(x.func.value).endswith(".payload"))
-    ctx.need(pay, "payload.decode call in parseRecords")
-    for p in pay:
-        call = next(x for x in walk_local(g.node(p).ast) if isinstance(x, ast.Call) and call_attr(x) == "decode")
-        hv = src(call.func.value)[: -len(".payload")]
-        ok = len(call.args) == 2 and src(call.args[1]) == f"{hv}.rdlength"
-        wit = g.must_precede(hdr, [p], exc=False)
-        ctx.check(ok and bool(hdr) and wit is None, "escape/length-supplied", f"{Q}.Message.parseRecords | <rdlength>",
-                  "the payload decoder is not given the rdlength of a header that was decoded successfully just before", witness=g.describe(wit))
+    # found by role: the polymorphic site is the call the family resolves to the registered record decoders; the header decode next to it is the call
+    # resolved to RRHeader.decode
+    n_poly = 0
+    for caller, edges in sorted(fam.edges.items()):
+        poly: List[ast.Call] = []
+        hdrc: List[ast.Call] = []
+        for callee, call in edges:
+            if callee[1] == "decode" and callee[0] in fam.registry and callee[0] != "UnknownRecord" and not any(call is x for x in poly):
+                poly.append(call)
+            if callee == ("RRHeader", "decode") and not any(call is x for x in hdrc):
+                hdrc.append(call)
+        # a site is polymorphic when it may reach (nearly) every registered decoder, not when it names one record class
+        poly = [c for c in poly if len({cal[0] for cal, cl in edges if cl is c}) >= max(2, len(fam.registry) // 2)]
+        if not poly:
+            continue
+        g = ctx.cfg(fam.funcs[caller])
+        hdr = [i for c in hdrc for i in g.ids_of(c)]
+        headers = {src(c.func.value) for c in hdrc}
+        for call in poly:
+            n_poly += 1
+            ok = len(call.args) == 2 and not call.keywords and src(call.args[1]) in {f"{h}.rdlength" for h in headers}
+            ok = ok or (len(call.args) == 1 and [k.arg for k in call.keywords] == ["length"] and src(call.keywords[0].value) in {f"{h}.rdlength" for h in headers})
+            wit = g.must_precede(hdr, g.ids_of(call), exc=False) if hdr else None
+            ctx.check(ok and bool(hdr) and wit is None, "escape/length-supplied", f"{fam.qual(caller)} | <rdlength>",
+                      "the payload decoder is not given the rdlength of a header that was decoded successfully just before", witness=g.describe(wit) if wit else "")
+    if not n_poly:
+        _fail("anchor not found: the call that dispatches to the registered record decoders (payload.decode(strio, header.rdlength))")
     rh = fam.funcs.get(("RRHeader", "decode")) or _fail("RRHeader.decode not in the decode family")
     gr = ctx.cfg(rh)
     sets = gr.ids(lambda n: n.kind == "stmt" and isinstance(n.ast, ast.Assign) and any(is_self_attr(e, "rdlength") for t in n.ast.targets for e in (t.elts if isinstance(t, ast.Tuple) else [t])))
@@ -1143,6 +1255,56 @@ def check_read_precisely(ctx, fam: Family):
         forms = [lincmp(g.node(t).ast, {}, negate=(lab == "F")) for t, lab in g.edge_guards(r)]
         okr = okr and lin_expect({lp: -1, f"len({buf})": 1}, 0) in forms
     ctx.check(okr, "read/contract", q + " | <returned bytes>", f"readPrecisely can return something other than the {lp} bytes it read (only after `len({buf}) >= {lp}`)")
+
+
+_FINITE_WRAPPERS = ("enumerate", "reversed", "sorted", "list", "tuple", "iter", "set", "frozenset", "chain", "itertools.chain", "chain.from_iterable", "itertools.chain.from_iterable",
+                    "islice", "itertools.islice", "zip_longest", "itertools.zip_longest", "map", "filter")
+_ENDLESS = ("count", "itertools.count", "cycle", "itertools.cycle", "repeat", "itertools.repeat")
+
+
+def _finite_iterable(e, lp, sz, depth: int = 0):
+    """-> (True, "") finite and fixed before the loop | (False, why) positively endless or growing inside the loop | (None, why) shape not recognised."""
+    if depth > 6:
+        return None, "nesting"
+    if isinstance(e, ast.Name) and e.id in sz.defs:
+        r = _finite_iterable(sz.defs[e.id], lp, sz, depth + 1)
+        if r[0] is not None:
+            return r
+    if isinstance(e, (ast.Tuple, ast.List, ast.Set, ast.Dict, ast.Constant)):
+        return True, ""
+    if isinstance(e, (ast.Attribute, ast.Name, ast.Subscript)):
+        # a container: it must not grow inside the loop
+        grows = [c for c in ast.walk(lp) if isinstance(c, ast.Call) and call_attr(c) in ("append", "extend", "insert", "add", "update", "setdefault") and src(c.func.value) == src(e)]
+        return (False, f"`{src(e)}` grows inside the loop") if grows else (True, "")
+    if isinstance(e, (ast.GeneratorExp, ast.ListComp, ast.SetComp, ast.DictComp)):
+        rs = [_finite_iterable(gen.iter, lp, sz, depth + 1) for gen in e.generators]
+        if any(r[0] is False for r in rs):
+            return [r for r in rs if r[0] is False][0]
+        return (True, "") if all(r[0] for r in rs) else (None, "comprehension over an unrecognised iterable")
+    if isinstance(e, ast.Call):
+        nm = call_name(e) or ""
+        if nm == "range":
+            return True, ""
+        if nm in _ENDLESS and not (nm.endswith("repeat") and len(e.args) == 2):
+            return False, f"{nm}() never ends"
+        if nm == "iter" and len(e.args) == 2:
+            return None, "iter(callable, sentinel)"
+        if nm == "zip":
+            rs = [_finite_iterable(a, lp, sz, depth + 1) for a in e.args]
+            if any(r[0] for r in rs):
+                return True, ""          # zip stops with its shortest argument
+            if rs and all(r[0] is False for r in rs):
+                return rs[0]
+            return None, "zip() of unrecognised iterables"
+        if nm in _FINITE_WRAPPERS:
+            args = e.args[1:] if nm in ("map", "filter") else (e.args[:1] if nm.endswith("islice") else e.args)
+            rs = [_finite_iterable(a, lp, sz, depth + 1) for a in args]
+            if any(r[0] is False for r in rs):
+                return [r for r in rs if r[0] is False][0]
+            return (True, "") if rs and all(r[0] for r in rs) else (None, f"{nm}() of an unrecognised iterable")
+        if isinstance(e.func, ast.Attribute) and e.func.attr in ("items", "values", "keys", "split", "splitlines", "copy") and not e.args[1:]:
+            return _finite_iterable(e.func.value, lp, sz, depth + 1)
+    return None, "shape"
 
 
 def check_termination(ctx, fam: Family):
@@ -1187,17 +1349,11 @@ def check_termination(ctx, fam: Family):
                 n_loops += 1
                 cons = ctx.construct(q, lp)
                 if isinstance(lp, ast.For):
-                    it = expand(lp.iter, sz.defs)
-                    finite = False
-                    if isinstance(it, ast.Call) and call_name(it) == "range":
-                        finite = True
-                    elif isinstance(it, (ast.Tuple, ast.List)):
-                        finite = True
-                    elif isinstance(it, (ast.Attribute, ast.Name)):
-                        # iterating a list attribute: it must not grow inside the loop
-                        grows = [c for c in ast.walk(lp) if isinstance(c, ast.Call) and call_attr(c) in ("append", "extend", "insert") and src(c.func.value) == src(lp.iter)]
-                        finite = not grows
-                    ctx.check(finite, "termination/for-finite", cons, f"the loop iterates over `{src(lp.iter)}`, which is not a finite sequence fixed before the loop")
+                    finite, why = _finite_iterable(lp.iter, lp, sz)
+                    if finite is None:
+                        ctx.note(f"termination/for-finite: {cons}: iterable `{src(lp.iter)}` not recognised ({why}); not judged")
+                        continue
+                    ctx.check(finite, "termination/for-finite", cons, f"the loop iterates over `{src(lp.iter)}`, which is not a finite sequence fixed before the loop: {why}")
                     continue
                 # while loops
                 heads = g.ids(lambda n: n.kind == "join" and n.ast is lp)
@@ -1597,6 +1753,12 @@ def check(ctx):
 
 
 MUTANTS = [
+    Mutant("sections-parsed-in-an-endless-cycle", DNS, "        items = ((self.answers, nans), (self.authority, nns), (self.additional, nadd))\n\n        for l, n in items:\n            self.parseRecords(l, n, strio)\n",
+           "        for l in cycle((self.answers, self.authority, self.additional)):\n            self.parseRecords(l, nans, strio)\n", more=[(DNS, "from itertools import chain\n", "from itertools import chain, cycle\n")],
+           expect_rule="termination/for-finite"),
+    # the dispatch to the registered decoders found by role (a local holding the record, nested under `if recordType:`, break instead of return)
+    Mutant("payload-through-a-local-decoded-without-its-length", DNS, "            t = self.lookupRecordType(header.type)\n            if not t:\n                continue\n            header.payload = t(ttl=header.ttl)\n            try:\n                header.payload.decode(strio, header.rdlength)\n            except EOFError:\n                return\n            list.append(header)\n", "            recordType = self.lookupRecordType(header.type)\n            if recordType:\n                payload = header.payload = recordType(ttl=header.ttl)\n                try:\n                    payload.decode(strio)\n                except EOFError:\n                    break\n                list.append(header)\n", expect_rule="escape/length-supplied"),
+    Mutant("payload-through-a-local-given-the-message-length", DNS, "            t = self.lookupRecordType(header.type)\n            if not t:\n                continue\n            header.payload = t(ttl=header.ttl)\n            try:\n                header.payload.decode(strio, header.rdlength)\n            except EOFError:\n                return\n            list.append(header)\n", "            recordType = self.lookupRecordType(header.type)\n            if recordType:\n                payload = header.payload = recordType(ttl=header.ttl)\n                try:\n                    payload.decode(strio, num)\n                except EOFError:\n                    break\n                list.append(header)\n", expect_rule="escape/length-supplied"),
     # the TCP framing loop: every way back to the loop head removes the frame from the buffer
     Mutant("tcp-unsolicited-message-dispatched-then-continue", DNS, "                except KeyError:\n                    self.controller.messageReceived(m, self)\n                else:\n                    del self.liveMessages[m.id]\n",
            "                except KeyError:\n                    self.controller.messageReceived(m, self)\n                    continue\n                else:\n                    del self.liveMessages[m.id]\n",
@@ -1666,6 +1828,14 @@ MUTANTS = [
 ]
 
 SILENT = [
+    # a module-level helper driven by a table of (attribute, factory) rows that every caller passes as a literal; zip()/enumerate() loops
+    Silent("rp-decoded-by-a-table-driven-helper", DNS, "        self.mbox = Name()\n        self.txt = Name()\n        self.mbox.decode(strio)\n        self.txt.decode(strio)\n",
+           "        _decodeFresh(self, strio, ((\"mbox\", Name), (\"txt\", Name)))\n",
+           more=[(DNS, "def readPrecisely(file, l):\n", "def _decodeFresh(owner, strio, fields):\n    for attribute, factory in fields:\n        setattr(owner, attribute, factory())\n"
+                  "    for attribute, factory in fields:\n        getattr(owner, attribute).decode(strio)\n\n\ndef readPrecisely(file, l):\n")]),
+    Silent("sections-parsed-in-a-zip-loop", DNS, "        items = ((self.answers, nans), (self.authority, nns), (self.additional, nadd))\n\n        for l, n in items:\n            self.parseRecords(l, n, strio)\n",
+           "        recordLists = (self.answers, self.authority, self.additional)\n        for records, expected in zip(recordLists, (nans, nns, nadd)):\n            self.parseRecords(records, expected, strio)\n"),
+    Silent("payload-through-a-local-nested-break", DNS, "            t = self.lookupRecordType(header.type)\n            if not t:\n                continue\n            header.payload = t(ttl=header.ttl)\n            try:\n                header.payload.decode(strio, header.rdlength)\n            except EOFError:\n                return\n            list.append(header)\n", "            recordType = self.lookupRecordType(header.type)\n            if recordType:\n                payload = header.payload = recordType(ttl=header.ttl)\n                try:\n                    payload.decode(strio, header.rdlength)\n                except EOFError:\n                    break\n                list.append(header)\n"),
     Silent("tcp-malformed-frame-skipped-after-removing-it", DNS, "                m.fromStr(myChunk)\n\n                try:\n                    d, canceller = self.liveMessages[m.id]\n",
            "                try:\n                    m.fromStr(myChunk)\n                except (EOFError, ValueError):\n                    self.buffer = self.buffer[self.length :]\n                    self.length = None\n"
            "                    continue\n\n                try:\n                    d, canceller = self.liveMessages[m.id]\n"),
